@@ -43,6 +43,10 @@ struct MsgT {
 
 /// Index of the re-persist event in the alphabet (used only by its own slice of histories).
 const RE_PERSIST: usize = 12;
+/// The kinds of `vupd::kinds` follow the 13 hand-made events.
+const FIRST_KIND: usize = 13;
+/// Start zone of the kinds family (index into `start_zones`).
+const KINDS_ZONE: usize = 8;
 
 fn upd(us: Vec<Rr>) -> Msg {
     Msg { prereqs: vec![], updates: us }
@@ -68,6 +72,10 @@ fn alphabet() -> Vec<MsgT> {
         MsgT { name: "add z NS n2", build: |_| upd(vec![ns("z.", 60, "n2.o.")]), persist: false },
         MsgT { name: "re-persist: dump the zone into the existing journal again", build: |_| upd(vec![]), persist: true },
     ]
+    .into_iter()
+    // every update-RR kind the live handler treats specially (shared list, see vupd::kinds)
+    .chain(vupd::kinds::all().into_iter().map(|k| MsgT { name: k.name, build: k.build, persist: false }))
+    .collect()
 }
 
 fn start_zones(thorough: bool) -> Vec<(&'static str, Vec<Rr>)> {
@@ -88,6 +96,7 @@ fn start_zones(thorough: bool) -> Vec<(&'static str, Vec<Rr>)> {
     ] {
         v.push((name, vec![soa("z.", 60, s, 1), ns("z.", 60, "n1.o."), a("a.z.", 60, 1)]));
     }
+    v.push(("kinds-zone", vupd::kinds::kinds_zone(5)));
     v
 }
 
@@ -98,11 +107,24 @@ const FIRST_SERIAL_ZONE: usize = 2;
 const SERIAL_ZONE_ALPHABET: [usize; 5] = [0, 4, 5, 8, 10];
 
 fn zone_alphabet(zone: usize, n: usize) -> Vec<usize> {
+    if zone == KINDS_ZONE {
+        return (FIRST_KIND..n).collect();
+    }
     if zone >= FIRST_SERIAL_ZONE {
         SERIAL_ZONE_ALPHABET.to_vec()
     } else {
-        (0..n).filter(|i| *i != RE_PERSIST).collect()
+        (0..n).filter(|i| *i != RE_PERSIST && *i < FIRST_KIND).collect()
     }
+}
+
+/// The messages tried as continuation on a recovered handler (the history alphabet, except for
+/// the kinds zone: one kind of every class).
+fn cont_alphabet(zone: usize, n: usize, alpha: &[MsgT]) -> Vec<usize> {
+    if zone != KINDS_ZONE {
+        return zone_alphabet(zone, n);
+    }
+    let pick = ["add SOA at a non-apex name", "delete the apex NS RRset", "add an RR", "delete an RR (class NONE)", "replace the apex SOA (higher serial)", "ignored non-apex SOA add, then an effective add"];
+    (FIRST_KIND..n).filter(|i| pick.contains(&alpha[*i].name)).collect()
 }
 
 // ------------------------------------------------------------------------------------------
@@ -698,7 +720,7 @@ fn run_history(w: &mut Worker, plan: &Plan, zone: usize, hist: &[usize], only: O
     if life.acks.iter().skip(1).any(|a| a.points.iter().any(|p| p.inflight_serial.is_none())) {
         l.outcome("machinery:in-flight-soa-query-did-not-complete");
     }
-    let za = zone_alphabet(zone, plan.alpha.len());
+    let za = cont_alphabet(zone, plan.alpha.len(), plan.alpha);
     let conts: Vec<Vec<usize>> = seqs(za.len(), plan.cont_len(hist.len())).into_iter().map(|s| s.into_iter().map(|i| za[i]).collect()).collect();
     for k in life.crash_points() {
         if only.map(|o| o.k.is_some() && o.k != Some(k)).unwrap_or(false) {
@@ -1041,6 +1063,7 @@ fn main() {
         let max_len = match zone {
             0 => if thorough { 4 } else { 3 },
             1 => if thorough { 3 } else { continue },
+            KINDS_ZONE => 2,
             _ => if thorough { 3 } else { 2 },
         };
         let za = zone_alphabet(zone, alpha.len());
@@ -1088,7 +1111,12 @@ fn main() {
          and (after histories of <= 2 quick / <= 3 thorough messages) every stop inside the continuation is recovered again (second crash). \
          Oracle: recovery Ok; recovered zone = state before or after the in-flight message of the crash-free run (content + serial); recovered \
          serial not below any serial answered before the stop (SOA query after every message and in-flight at every journal write point); \
-         continuation: same rcode and same state as never crashed. Further families: (a) histories that contain a second persist_to_journal() on \
+         continuation: same rcode and same state as never crashed. Kinds family (both tiers): every single event and every ordered PAIR of \
+         events over the shared list vupd::kinds - one message per update-RR kind the live handler treats specially (ignored adds: non-apex \
+         SOA, apex SOA with lower / equal serial, CNAME over data, data over CNAME, duplicate RR, TTL-only change; skipped deletes: apex \
+         SOA / NS RRset, apex SOA RR, last apex NS RR, delete-all at the apex, missing RR / RRset / name; the effective class IN / NONE / ANY \
+         forms; messages mixing an ignored or skipped RR with an effective one) - from a zone with one apex NS, data at a.z. and a CNAME at \
+         b.z., with the full crash-point enumeration (C12 asserts that every RR of the list is an atom of its alphabet). Further families: (a) histories that contain a second persist_to_journal() on \
          the running handler (re-dump into the existing journal); (b) journal WRITE-ERROR faults: for every history over a 6-event sub-alphabet \
          (<= 2 quick / <= 3 thorough) EVERY journal write of the last event fails in turn (database locked by another writer at that moment), the \
          server goes on, and the process then stops at every later point: the recovered zone must be a boundary state of the LIVE handler that saw \
